@@ -620,7 +620,11 @@ else:
 
                 cls.__model_fields__[name] = field
 
-        def __init__(self, **data: Any):
+        def __init__(__mcp_self__, **data: Any):
+            # The instance parameter has an unlikely name so that a member of the
+            # data called "self" (extra members are allowed) is just data
+            self = __mcp_self__
+
             # Process aliases
             processed_data = self._process_aliases(data)
             provided = set(processed_data)
@@ -807,7 +811,9 @@ else:
             result = {}
 
             for key, value in self.__dict__.items():
-                if key.startswith("__"):
+                # Only dunder names are internal; an extra member such as
+                # "__typename" is data and must be dumped like any other
+                if key.startswith("__") and key.endswith("__"):
                     continue
 
                 if include and key not in include:
